@@ -49,6 +49,12 @@ CHECKS = {
  "C18": ("E-ENUM", "exploration", "bounded-exhaustive enumeration of path ASTs x every spelling deviating at one (thorough: two) optional sites x documents, relational oracle canonical vs variant",
          "For every path AST of the bound every spelling that differs from the canonical one at one optional site (spaces at each position the grammar allows, quote style, +/leading zeros, dot vs bracket, .* vs [*], omitted $) is parsed and evaluated on every document; values must be equal, or errors of the same type naming the same step.",
          "Trusted: the renderer's list of optional sites (derived from jsonpath.peg by hand), the mapping of error texts to step indices.", "DESIGN.md §4 C18"),
+ "C02": ("E-ENUM", "exploration", "bounded-exhaustive enumeration of strings (token sequences, grammar sentences, all one-token mutants, pumped sentences, the suite's paths) x configs, each Parse in an isolated worker process; totality invariant on every execution",
+         "Every string of the enumerated sets is parsed with and without registered functions/accessor mode inside crash-isolated single-threaded workers (a fatal stack overflow is attributed to the single responsible string); Parse must return, and yield exactly one of (function, nil) or (nil, one of the four documented error types); an accepted function is called on three documents and must not panic.",
+         "Trusted: the worker supervision (per-case progress word in shared memory, 60 s watchdog). Strings outside the enumerated sets are not covered.", "DESIGN.md §4 C02"),
+ "C17": ("E-ENUM", "model_checking", "bounded-exhaustive enumeration of strings; the model is jsonpath.peg itself, executed by an independent PEG interpreter plus an action model; every predicted trace is compared with the generated parser",
+         "For every string of the C02 sets the grammar file is interpreted with pure PEG semantics, the surviving actions are replayed in order through an action model that raises the documented restrictions, and the library must accept exactly when the model accepts, raise the same error class (first in action order) and produce the same error text: position = character offset of the longest accepted prefix, near = the rest of the path from that character.",
+         "Trusted: the PEG interpreter h/pegi (its reading of every rule is compared with peg's own normal form in its tests), the action model h/pmodel (actions recognised by source text; degrades to acceptance-and-position checking if an action is unknown), Go's strconv/regexp/encoding/json for validity.", "DESIGN.md §4 C17, §2.5"),
 }
 
 def main():
